@@ -1021,6 +1021,9 @@ def run_parts(run, parts, only=None, pendings=1, kinds=None, mandatory=True):
         ks = (0, 1, 2, 3) if run.tier == "quick" else (0, 1, 2, 3, 4)
         res = ruleset_obligations(run, prog, ks, pendings=pendings, only=only)
         finish_family(run, helper, res, lambda info, cex: ruleset_scenario(info["k"], cex), mandatory)
+    if "conversions" in parts:
+        res = conversion_obligations(run, prog, run.tier, only=only)
+        finish_convert(run, helper, res, mandatory)
     if "paths" in parts:
         res = path_obligations(run, prog, only=only)
         finish_family(run, helper, res, path_scenario, mandatory)
@@ -1234,3 +1237,186 @@ def path_scenario(info, cex):
     sc = {"facts": C.value(z3.Const("facts", VAL)), "builder": [{"op": "rule", "name": "main", "expr": e}]}
     from .e3replay import expected_result
     return sc, 0, expected_result(C, cex["_case"].result, None), None
+
+
+# ================================================================================================ C17: element-wise list / map conversions (generic impls)
+ELEM = z3.DeclareSort("ConvertedElement")
+conv_ok = z3.Function("conv_ok", VAL, z3.BoolSort())
+conv_val = z3.Function("conv_val", VAL, ELEM)
+conv_err = z3.Function("conv_err", VAL, ERR)
+elem_into = z3.Function("elem_into_value", ELEM, VAL)
+
+
+class ConvWorld(Env):
+    """The element type V of the generic impls is an oracle: V::try_from(value) is an arbitrary deterministic partial function of the
+    value (conv_ok / conv_val / conv_err), V::into() an arbitrary total function."""
+
+    def override(self, ex, callee, args):
+        if callee.startswith("<OracleV as std::convert::TryFrom<value::Value>>::try_from") or callee.startswith("<value::Value as std::convert::TryInto<OracleV>>::try_into"):
+            t = ex.to_val(args[0])
+            ex.log.append(("convert", t))
+            if ex.choose([("ok", conv_ok(t)), ("err", z3.Not(conv_ok(t)))], "element-conversion") == "ok":
+                return std.ok(Opq("elem", conv_val(t)))
+            return std.err(Opq("Error", conv_err(t)))
+        if callee.startswith("<value::Value as std::convert::From<OracleV>>::from") or callee.startswith("<OracleV as std::convert::Into<value::Value>>::into"):
+            e = args[0]
+            if isinstance(e, Opq) and e.sort == "elem":
+                return SymVal(elem_into(e.t))
+            raise Unsupported(f"into() of {e}")
+        if callee.startswith("<std::string::String as std::convert::Into<std::string::String>>::into"):
+            return args[0]
+        return super().override(ex, callee, args)
+
+
+def _elems_ok(res):
+    if isinstance(res, Agg) and res.ty == "Result" and res.variant == "Ok":
+        return res.fields[0]
+    return None
+
+
+def conversion_obligations(run, prog, tier, only=None):
+    out = []
+    ns = (0, 1, 2, 3) if tier == "thorough" else (0, 1, 2)
+    world = ConvWorld()
+    targets = [("vec", "std::vec::Vec<OracleV>", "Vec"), ("btreemap", "std::collections::BTreeMap<std::string::String, OracleV>", "Map"),
+               ("hashmap", "std::collections::HashMap<std::string::String, OracleV>", "Map")]
+    for tname, tty, tag in targets:
+        callee = f"<{tty} as std::convert::TryFrom<value::Value>>::try_from"
+        # ---- wrong kind
+        oid = f"extract_{tname}_wrong_kind"
+        if not only or only in oid:
+            v = z3.Const("input", VAL)
+
+            def body(ex, callee=callee, v=v, tag=tag):
+                ex.assume(z3.Not(is_tag(v, tag)))
+                return ex.call(None, callee, [SymVal(v)])
+
+            def carries(ex, r, v=v):
+                if isinstance(r, Agg) and r.ty == "Result" and r.variant == "Err":
+                    e = r.fields[0]
+                    if isinstance(e, Agg) and e.variant == "UnexpectedValueType":
+                        return ex.to_val(e.fields[0]) == v
+                return False
+            d = check_paths(run, prog, world, oid, body, [Case("type-error-carrying-the-value", z3.BoolVal(True), None, carries)], "conversion",
+                            meta={"target": tty})
+            out.append((d, {"target": tname, "kind": "wrong", "tag": tag}))
+        # ---- n elements / entries
+        for n in ns:
+            oid = f"extract_{tname}_{n}_elements"
+            if only and only not in oid:
+                continue
+            es = [z3.Const(f"elem{i}", VAL) for i in range(n)]
+            ks = [z3.String(f"key{i}") for i in range(n)]
+
+            def body(ex, callee=callee, es=es, ks=ks, tag=tag, n=n):
+                if tag == "Vec":
+                    val = Agg("Value", "Vec", {0: VecV([SymVal(e) for e in es])})
+                else:
+                    sorted_keys(ex, ks)
+                    val = Agg("Value", "Map", {0: MapV([("kv", Str(ks[i]), SymVal(es[i])) for i in range(n)])})
+                return ex.call(None, callee, [val])
+            allok = z3.And([conv_ok(e) for e in es]) if es else z3.BoolVal(True)
+
+            def good_ok(ex, r, es=es, ks=ks, tag=tag, n=n):
+                c = _elems_ok(r)
+                if tag == "Vec":
+                    if not (isinstance(c, VecV) and c.items is not None and len(c.items) == n):
+                        return False
+                    conds = [it.t == conv_val(e) if isinstance(it, Opq) and it.sort == "elem" else False for it, e in zip(c.items, es)]
+                else:
+                    if not (isinstance(c, MapV) and all(l[0] == "kv" for l in c.layers) and len(c.layers) == n):
+                        return False
+                    conds = [z3.And(l[1].t == k, l[2].t == conv_val(e)) if isinstance(l[2], Opq) and l[2].sort == "elem" else False
+                             for l, k, e in zip(c.layers, ks, es)]
+                if any(x is False for x in conds):
+                    return False
+                return z3.And(conds) if conds else True
+
+            def good_err(ex, r, es=es):
+                if isinstance(r, Agg) and r.ty == "Result" and r.variant == "Err":
+                    e = r.fields[0]
+                    if isinstance(e, Opq) and e.sort == "Error":
+                        return z3.Or([z3.And(z3.Not(conv_ok(x)), e.t == conv_err(x)) for x in es])
+                return False
+            cases = [Case("every-element-converts", allok, None, good_ok)]
+            if n:
+                cases.append(Case("some-element-does-not-convert", z3.Not(allok), None, good_err))
+            d = check_paths(run, prog, world, oid, body, cases, "conversion", meta={"target": tty, "elements": n})
+            out.append((d, {"target": tname, "kind": "elements", "n": n, "tag": tag}))
+    # ---- into Value: order and count preserved
+    for n in ns:
+        oid = f"vec_into_value_{n}_elements"
+        if only and only not in oid:
+            continue
+        xs = [z3.Const(f"x{i}", ELEM) for i in range(n)]
+
+        def body(ex, xs=xs):
+            return std.ok(ex.call(None, "<value::Value as std::convert::From<std::vec::Vec<OracleV>>>::from", [VecV([Opq("elem", x) for x in xs])]))
+        d = check_paths(run, prog, world, oid, body, [Case("same-order", z3.BoolVal(True), None, ok_vec([elem_into(x) for x in xs]))], "conversion",
+                        meta={"elements": n})
+        out.append((d, {"target": "into_vec", "kind": "into", "n": n}))
+    return out
+
+
+def conversion_scenario(info, cex):
+    """-> (request for native/helper `convert`, expected answer)"""
+    from .e3replay import Concretizer, Unrealisable
+    C = Concretizer(cex["_model"])
+    if info["kind"] == "wrong":
+        v = z3.Const("input", VAL)
+        val = {"t": "Int", "v": "7"} if C.boolean(conv_ok(v)) and info["tag"] != "Int" else C.value(v)
+        return {"target": info["target"], "value": val}, {"err": {"variant": "UnexpectedValueType", "value": val}}
+    if info["kind"] == "elements":
+        n = info["n"]
+        oks = [C.boolean(conv_ok(z3.Const(f"elem{i}", VAL))) for i in range(n)]
+        elems = [{"t": "Int", "v": str(i + 1)} if oks[i] else {"t": "String", "v": f"bad{i}"} for i in range(n)]
+        if info["tag"] == "Vec":
+            val = {"t": "Vec", "v": elems}
+        else:
+            keys = [C.string(z3.String(f"key{i}")) for i in range(n)]
+            val = {"t": "Map", "v": sorted([[k, e] for k, e in zip(keys, elems)])}
+        if all(oks):
+            exp = {"ok": [i + 1 for i in range(n)] if info["tag"] == "Vec" else sorted([[k, i + 1] for i, k in enumerate(keys)])}
+        else:
+            exp = {"err_any_of": [{"variant": "UnexpectedValueType", "value": elems[i]} for i in range(n) if not oks[i]]}
+        return {"target": info["target"], "value": val}, exp
+    raise Unrealisable("the into-Value direction has no native scenario")
+
+
+def finish_convert(run, helper, res, mandatory=True):
+    """Native replay of conversion counterexamples through native/helper `convert` (public TryFrom impls, V = u8)."""
+    import json as _json
+    from .e3replay import Unrealisable
+    for d, info in res:
+        if d["verdict"] == "fail":
+            confirmed, notes, seen = 0, [], set()
+            for cex in d.get("cex", []):
+                if cex["case"] in seen:
+                    continue
+                try:
+                    req, exp = conversion_scenario(info, cex)
+                except Unrealisable as e:
+                    notes.append(f"{cex['case']}: {e}")
+                    continue
+                seen.add(cex["case"])
+                line = helper.call("convert", [req])[0]
+                obs = _json.loads(line[3:]) if line.startswith("OK ") else {"panic": line}
+                if "err_any_of" in exp:
+                    okk = any(_json.dumps(obs.get("err"), sort_keys=True) == _json.dumps(x, sort_keys=True) for x in exp["err_any_of"])
+                else:
+                    okk = _json.dumps(obs, sort_keys=True) == _json.dumps(exp, sort_keys=True)
+                if not okk:
+                    confirmed += 1
+                    run.finding(d["id"], cex["case"], f"{cex['why']}; natively: {_json.dumps(req)} gives {_json.dumps(obs)} but the specification gives {_json.dumps(exp)}",
+                                {"engine": "e3-convert", "request": req, "expected": exp, "observed": obs})
+                else:
+                    notes.append(f"{cex['case']}: the solver's scenario behaves as specified natively")
+            d["replay_notes"] = notes
+            if not confirmed:
+                d["verdict"] = "inconclusive"
+                d["reason"] = "counterexample(s) did not reproduce natively: " + "; ".join(notes)[:300]
+        for c in d.get("cex", []):
+            c.pop("_model", None)
+            c.pop("_case", None)
+        if d["verdict"] == "inconclusive":
+            run.inconc(d["id"], d.get("reason", "no verdict"), mandatory=mandatory)
